@@ -4,7 +4,6 @@ CURRENT source with `ast` (codebasin is never imported).  Fail-closed.
   MacroExpander.__init__      self.max_level = <int>
   macro_from_definition_string  the default expansion NumericalConstant(..., "1")
                                 and the separator of string.partition("=")
-  MacroFunction.replace        the variadic separator Punctuator(..., ",")
 """
 import ast
 from pathlib import Path
@@ -66,21 +65,11 @@ def generate(repo: Path):
             sep = n.args[0].value
     if default is None or sep is None:
         raise ValueError("macro_from_definition_string: default expansion or separator not found")
-    # --- variadic separator
-    mf = _find(tree, ast.ClassDef, "MacroFunction")
-    rep = _find(mf, ast.FunctionDef, "replace")
-    commas = [n for n in ast.walk(rep)
-              if isinstance(n, ast.Call) and isinstance(n.func, ast.Name) and n.func.id == "Punctuator"]
-    if len(commas) != 1 or len(commas[0].args) != 4 or not isinstance(commas[0].args[3], ast.Constant) \
-            or commas[0].args[2].value is not False:
-        raise ValueError("MacroFunction.replace: expected one Punctuator(..., False, <str>) call")
-    comma = commas[0].args[3].value
     text = "\n".join([
         "From Coq Require Import String.",
         "Local Open Scope string_scope.",
         f"Definition max_level : nat := {levels[0]}.",
         f"Definition default_expansion : string := {_coq_str(default)}.",
         f"Definition define_separator : string := {_coq_str(sep)}.",
-        f"Definition variadic_separator : string := {_coq_str(comma)}.",
         ""])
     return {"C03_tables.v": text}
